@@ -123,7 +123,10 @@ Fixpoint find_word (w : string) (rules : list (string * nat)) : option nat :=
   end.
 
 (* one right-hand-side symbol against the head of the token list: consumed operand (if any), rest *)
-Definition match_atom (kws : list string) (regs : list regclass) (a : atom) (toks : list token)
+(* kwl = what the semantic action of `$str$ -> <keyword>` returns: true = the (lower-case) keyword
+   (add_keyword: `lambda rhs: keyword`), false = the text as written; exported per ISA by probing the
+   real production *)
+Definition match_atom (kwl : bool) (kws : list string) (regs : list regclass) (a : atom) (toks : list token)
   : option (option opv * list token) :=
   match a with
   | ASp => None
@@ -164,7 +167,7 @@ Definition match_atom (kws : list string) (regs : list regclass) (a : atom) (tok
       match toks with
       | TWord s :: r =>
           match word_typ kws s with
-          | Some t => Some (Some (VLabel t), r)
+          | Some t => Some (Some (VLabel (if kwl then t else s)), r)
           | None => Some (Some (VLabel s), r)
           end
       | _ => None
@@ -173,14 +176,14 @@ Definition match_atom (kws : list string) (regs : list regclass) (a : atom) (tok
   end.
 
 (* the deterministic recogniser of one flat production: the whole token list must be consumed *)
-Fixpoint matches (kws : list string) (regs : list regclass) (rule : list atom) (toks : list token)
+Fixpoint matches (kwl : bool) (kws : list string) (regs : list regclass) (rule : list atom) (toks : list token)
   : option (list opv) :=
   match rule with
   | [] => match toks with [] => Some [] | _ => None end
   | a :: r =>
-      match match_atom kws regs a toks with
+      match match_atom kwl kws regs a toks with
       | Some (o, toks') =>
-          match matches kws regs r toks' with
+          match matches kwl kws regs r toks' with
           | Some os => Some (match o with Some v => v :: os | None => os end)
           | None => None
           end
@@ -397,13 +400,13 @@ From PV Require Import Lib.Val.
   end.
 
 (* all entries of l (with index from i) whose production recognises toks, with the operands recovered *)
-Fixpoint matching_from (kws : list string) (regs : list regclass) (i : nat) (l : list sentry) (toks : list token)
+Fixpoint matching_from (kwl : bool) (kws : list string) (regs : list regclass) (i : nat) (l : list sentry) (toks : list token)
   : list (nat * list opv) :=
   match l with
   | [] => []
   | e :: r =>
-      match matches kws regs (s_rule e) toks with
-      | Some ops => (i, ops) :: matching_from kws regs (S i) r toks
-      | None => matching_from kws regs (S i) r toks
+      match matches kwl kws regs (s_rule e) toks with
+      | Some ops => (i, ops) :: matching_from kwl kws regs (S i) r toks
+      | None => matching_from kwl kws regs (S i) r toks
       end
   end.
